@@ -1,7 +1,7 @@
 Require Import ZArith List. Require Extraction. Require Import ExtrOcamlBasic.
 Require Import IW.Lib.CInt IW.FS.Exf IW.FS.ExfFile IW.Gen.Facts.
 Extraction "m.ml" Z.add Z.mul Z.sub Z.div_eucl Z.compare Z.of_nat Z.to_nat Z.opp
-  tree_quirks fixed_quirks orig_quirks exfile_open exfile_open_ro exfile_write exfile_read exfile_copy truncate_lw ensure_size_lw
+  tree_quirks fixed_quirks orig_quirks exfile_open exfile_open_ro exfile_write_ro exfile_copy_ro exfile_write exfile_read exfile_copy truncate_lw ensure_size_lw
   add_mmap_lw remove_mmap_lw probe_mmap acquire_mmap sync_mmap remap_all step lstep needs_wlock mapped_total zlen
   os_any os_limit os_maplimit os_limits EXF_CRASH EXF_HANG EXF_PSIZE
   EXF_E_IO EXF_E_ERRNO EXF_E_READONLY EXF_E_INVARGS EXF_E_NOT_EXISTS EXF_E_OOB EXF_E_NOT_ALIGNED EXF_E_OVERFLOW EXF_E_MAXOFF EXF_E_POLFAIL
